@@ -56,7 +56,7 @@ const (
 	c15StdEpoch = uint64(5)
 	c15MetaGrp  = "g0" // metadata consumer group with members m1, m2
 	c15Wait     = 30 * time.Second
-	c15Call45   = 45 * time.Second // deadline of examined / admin unary calls (watchdog only)
+	c15Call45   = 25 * time.Second // deadline of examined / admin unary calls (watchdog only)
 )
 
 // The ACL actions the documentation (authentication_authorization.md) and the
@@ -249,7 +249,7 @@ func (w *c15World) call(method, id string, req gproto.Message, timeout time.Dura
 	stall := time.AfterFunc(12*time.Second, func() {
 		if atomic.CompareAndSwapInt32(&c15Dumped, 0, 1) {
 			fmt.Fprintf(os.Stderr, "c15: %s by %s still running after 12s; goroutines:\n", method, id)
-			pprof.Lookup("goroutine").WriteTo(os.Stderr, 1)
+			pprof.Lookup("goroutine").WriteTo(os.Stderr, 2)
 		}
 	})
 	defer stall.Stop()
